@@ -115,6 +115,8 @@ type plan struct {
 	Patch, Status          int
 	PDelErr                bool
 	Term, Unfin            int
+	ListFin, NDelErr       bool // finalize: node list fails / Delete(node) fails
+	PoolPatch              int  // harness-only: the NodePool status patch inside updateNodePoolRegistrationHealth fails; realised as the pool outcome
 }
 
 func (p plan) hook() string {
@@ -135,11 +137,11 @@ func (p plan) gallina() string {
 	if p.isOK() {
 		return "okp"
 	}
-	return fmt.Sprintf("(mkPlan %s %s %s %s %s %s %s %s %s %s %s %s %s %s %s %s %s %s)",
+	return fmt.Sprintf("(mkPlan %s %s %s %s %s %s %s %s %s %s %s %s %s %s %s %s %s %s %s %s)",
 		wrNames[p.Fin], poutNames[p.Create], wrNames[p.DelLaunch], kit.GBool(p.ListReg), p.hook(),
 		wrNames[p.NPatchReg], wrNames[p.PoolReg], kit.GBool(p.ListInit), wrNames[p.NPatchInit],
 		wrNames[p.PoolLive1], wrNames[p.DelLive1], wrNames[p.PoolLive2], wrNames[p.DelLive2],
-		wrNames[p.Patch], wrNames[p.Status], kit.GBool(p.PDelErr), wrNames[p.Term], wrNames[p.Unfin])
+		wrNames[p.Patch], wrNames[p.Status], kit.GBool(p.PDelErr), wrNames[p.Term], wrNames[p.Unfin], kit.GBool(p.ListFin), kit.GBool(p.NDelErr))
 }
 
 // short description of the injected faults (for the distribution table / keys)
@@ -179,6 +181,12 @@ func (p plan) faults() []string {
 	add("term", p.Term)
 	add("unfin", p.Unfin)
 	add("pool_patch", p.PoolPatch)
+	if p.ListFin {
+		f = append(f, "list_fin")
+	}
+	if p.NDelErr {
+		f = append(f, "node_del")
+	}
 	return f
 }
 
@@ -210,6 +218,7 @@ const (
 	extRes      = "example.com/gpu"
 	startupK    = "example.com/startup"
 	claimTaintK = "example.com/claim-taint"
+	foreignFin  = "example.com/foreign-finalizer"
 )
 
 type world struct {
@@ -460,6 +469,10 @@ func (s *slot) funcs() interceptor.Funcs {
 				if o.Name == dupName {
 					w.effs = append(w.effs, "EDupDel")
 				} else {
+					if w.plan.NDelErr {
+						w.effs = append(w.effs, "ENodeDelFail")
+						return injected(wErr, nodeName)
+					}
 					w.effs = append(w.effs, "ENodeDel")
 				}
 			}
@@ -472,6 +485,11 @@ func (s *slot) funcs() interceptor.Funcs {
 					case "registration.go":
 						w.listHit["list_reg"] = true
 						if w.plan.ListReg {
+							return injected(wErr, "nodes")
+						}
+					case "controller.go":
+						w.listHit["list_fin"] = true
+						if w.plan.ListFin {
 							return injected(wErr, "nodes")
 						}
 					case "initialization.go":
@@ -847,6 +865,15 @@ func (w *world) apply(o opT) (string, []string, string) {
 			}
 		}
 		return "NodeVanish", nil, "QNone"
+	case "ForeignFin":
+		if nc := w.claim(); nc != nil {
+			nc.Finalizers = lo.Reject(nc.Finalizers, func(f string, _ int) bool { return f == foreignFin })
+			if o.B {
+				nc.Finalizers = append(nc.Finalizers, foreignFin)
+			}
+			must(client.IgnoreNotFound(w.c.Update(w.ctx, nc)))
+		}
+		return "(ForeignFin " + kit.GBool(o.B) + ")", nil, "QNone"
 	case "Rec":
 		return w.reconcile(*o.Plan)
 	}
@@ -896,6 +923,12 @@ func (w *world) condL(nc *v1.NodeClaim) string {
 		case "AwaitingReconciliation":
 			return "LAwait"
 		case "LaunchFailed":
+			if len(c.Message) > 303 {
+				w.unexpectedCall(fmt.Sprintf("LaunchFailed message of %d bytes was not truncated to 300", len(c.Message)))
+			}
+			if w.k.LongMsg && len(c.Message) != 303 {
+				w.unexpectedCall(fmt.Sprintf("LaunchFailed message of a 400+ byte error has %d bytes, expected 303", len(c.Message)))
+			}
 			return "LFailed"
 		case "CErr":
 			return "LCreateErr"
@@ -971,9 +1004,10 @@ func (w *world) claimG(nc *v1.NodeClaim) string {
 		}
 	}
 	term := nc.StatusConditions(statusObserved()).Get(v1.ConditionTypeInstanceTerminating).IsTrue()
-	return fmt.Sprintf("(Some (mkClaim %s %s %s %s %s %s %s %s %s))",
+	ffin := lo.ContainsBy(nc.Finalizers, func(f string) bool { return f != v1.TerminationFinalizer })
+	return fmt.Sprintf("(Some (mkClaim %s %s %s %s %s %s %s %s %s %s))",
 		kit.GBool(lo.Contains(nc.Finalizers, v1.TerminationFinalizer)), kit.GBool(nc.DeletionTimestamp != nil),
-		w.condL(nc), r, w.condI(nc), kit.GZ(ltt), pid, kit.GBool(nc.Status.NodeName != ""), kit.GBool(term))
+		w.condL(nc), r, w.condI(nc), kit.GZ(ltt), pid, kit.GBool(nc.Status.NodeName != ""), kit.GBool(term), kit.GBool(ffin))
 }
 
 func (w *world) nodeG() string {
